@@ -216,7 +216,7 @@ def write_replay(pid, payload):
     return p
 
 
-ALL_GENERATORS = ["gen_state", "gen_consts"]
+ALL_GENERATORS = ["gen_state", "gen_consts", "gen_convert"]
 
 
 def main():
